@@ -579,6 +579,12 @@ def _get_atoms(tokens, natoms):
             tokens.popleft()
         else:
             atoms.append([token, {}])
+    if natoms is not None and '--' in tokens:
+        # The expected number of atoms has been read, but the explicit end of
+        # the atom list is still to come: more atoms are given than the
+        # interaction has.
+        msg = ('Too many atoms before the "--" delimiter: {} are expected.')
+        raise IOError(msg.format(natoms))
     return atoms
 
 
